@@ -87,7 +87,8 @@ type c03lOp struct {
 }
 
 type c03lScenario struct {
-	V6        bool         `json:"v6"`
+	V6        bool         `json:"v6"`                // dual stack
+	V6Only    bool         `json:"v6_only,omitempty"` // IPv6-only pool: pods get IPv6 only, every interface still has its primary IPv4
 	MaxPool   int          `json:"max_pool"`
 	MinPool   int          `json:"min_pool"`
 	PerENI    int          `json:"per_eni"`
@@ -109,6 +110,9 @@ func c03lGen(t *rapid.T) c03lScenario {
 		NoRuntime: rapid.IntRange(0, 7).Draw(t, "noRuntime") == 0,
 	}
 	s.MinPool = rapid.IntRange(0, s.MaxPool).Draw(t, "minPool")
+	if !s.V6 && rapid.IntRange(0, 4).Draw(t, "v6only") == 0 {
+		s.V6Only = true
+	}
 	nPods := rapid.IntRange(1, vt.Scale(4, 6)).Draw(t, "nPods")
 	nLegacy := rapid.SampledFrom([]int{0, 0, 0, 1, 2}).Draw(t, "nLegacy")
 	for i := 0; i < nLegacy && i < nPods; i++ {
@@ -124,7 +128,7 @@ func c03lGen(t *rapid.T) c03lScenario {
 	// next step of some pod (create, get bound, ADD, DEL or object deletion in either
 	// order, flush, reconcile), one third is an arbitrary operation on an arbitrary pod.
 	// Every operation stays possible in every state; run() never consults this model.
-	type pm struct{ obj, bound, sandbox, ever, delPending, reported bool }
+	type pm struct{ obj, bound, sandbox, ever, delPending, reported, housekept bool }
 	model := make([]pm, nPods)
 	for _, lg := range s.Legacy {
 		if lg.Takeover {
@@ -149,6 +153,12 @@ func c03lGen(t *rapid.T) c03lScenario {
 			return []string{"reconcile"}
 		case m.delPending:
 			return []string{"flush", "flush", "flushadd", "flushadd", "delobj"}
+		case m.housekept && !m.sandbox:
+			return []string{"delobj", "delobj", "delobj", "add"}
+		case m.reported:
+			// teardown reported while the pod object lingers (terminating, finalizer):
+			// the agent's housekeeping runs before the object goes
+			return []string{"syncdel", "syncdel", "delobj", "delobj", "add", "reconcile"}
 		case !m.sandbox:
 			return []string{"add", "add", "add", "delobj"}
 		default:
@@ -157,6 +167,7 @@ func c03lGen(t *rapid.T) c03lScenario {
 	}
 	anyPod := []string{"create", "add", "add", "del", "del", "delobj", "phase", "flushadd"}
 	anyGlobal := []string{"reconcile", "reconcile", "reconcile", "reconcile", "flush", "flush", "gc", "gc", "syncdel", "restartd", "restartc"}
+	wantFull := 0
 	n := rapid.IntRange(4, vt.Scale(30, 50)).Draw(t, "nOps")
 	for i := 0; i < n; i++ {
 		op := c03lOp{P: rapid.IntRange(0, nPods-1).Draw(t, "pod")}
@@ -176,7 +187,12 @@ func c03lGen(t *rapid.T) c03lScenario {
 			}
 		case "add":
 			if m.obj && m.bound {
-				m.sandbox, m.ever = true, true
+				m.sandbox, m.ever, m.reported = true, true, false
+			}
+		case "syncdel":
+			if m.obj {
+				m.reported = false // housekeeping seen; next: the object goes
+				m.housekept = true
 			}
 		case "flushadd":
 			// the ADD cancels the pod's pending record; the tick's write fails, the others stay pending
@@ -189,7 +205,10 @@ func c03lGen(t *rapid.T) c03lScenario {
 			}
 			m.sandbox = false
 		case "delobj":
-			m.obj, m.bound = false, false
+			if m.housekept {
+				m.reported = true // reported earlier: the natural next step is a reconcile
+			}
+			m.obj, m.bound, m.housekept = false, false, false
 		case "phase":
 			if m.obj {
 				m.sandbox = false
@@ -227,6 +246,21 @@ func c03lGen(t *rapid.T) c03lScenario {
 			op.B = rapid.SampledFrom([]int{0, 0, 0, 0, 0, 1}).Draw(t, "writeFails")
 		case "reconcile":
 			op.A = rapid.SampledFrom([]int{0, 0, 0, 0, 1, 1, 1, 1, 1, 2, 3, 4, 5}).Draw(t, "flags")
+			// a lost assign answer (B) is usually followed by a full sync, which records
+			// the addresses the cloud holds; a later identical request is then replayed
+			if wantFull > 0 {
+				if rapid.IntRange(0, 3).Draw(t, "fullAfterLoss") > 0 {
+					op.A |= 2
+				}
+				wantFull--
+			}
+			if rapid.IntRange(0, 7).Draw(t, "lostAssign") == 0 {
+				op.B = 1
+				if s.v6() && rapid.Bool().Draw(t, "lostV6") {
+					op.B = 2
+				}
+				wantFull = 2
+			}
 			if rapid.IntRange(0, 9).Draw(t, "cloudFaults") == 0 {
 				nf := rapid.IntRange(1, 3).Draw(t, "nFaults")
 				for j := 0; j < nf; j++ {
@@ -323,7 +357,12 @@ type c03lWorld struct {
 	inWrite        func()         // runs once inside the next NodeRuntime write (before it is applied or failed)
 	step           int            // index of the running step
 	reportStep     map[string]int // uid -> step whose agent action last wrote `deleted` for it
-	conflict       bool
+	// uid -> the agent has reported the teardown of this pod (a `deleted` entry was seen
+	// in NodeRuntime) and the pod has not been given a sandbox since. The statement's
+	// liveness clause speaks of a teardown that "is reported"; whether the report is
+	// still in NodeRuntime when the pod object finally goes is the agent's business.
+	everReported map[string]bool
+	conflict     bool
 
 	slots      []*c03lSlot
 	owners     map[string]c03cloud.Owner // ground truth: the pod object each binding was made for
@@ -339,7 +378,7 @@ func c03lPodID(k int) string   { return "ns/" + c03lPodName(k) }
 
 func c03lNewWorld(c *vt.Ctx, s c03lScenario) *c03lWorld {
 	w := &c03lWorld{c: c, s: s, delIssued: map[string]bool{}, verified: map[string]bool{},
-		owners: map[string]c03cloud.Owner{}, takeover: map[string]bool{}, reportStep: map[string]int{}}
+		owners: map[string]c03cloud.Owner{}, takeover: map[string]bool{}, reportStep: map[string]int{}, everReported: map[string]bool{}}
 	w.vnow = time.Now().Add(-2 * time.Hour).Truncate(time.Second)
 	w.ctx = aliyunClient.SetBackendAPI(context.Background(), aliyunClient.BackendAPIECS)
 	w.cloud = c03cloud.New("i-1", "vsw-1", "zone-a")
@@ -420,7 +459,7 @@ func c03lNewWorld(c *vt.Ctx, s c03lScenario) *c03lWorld {
 			NodeCap:      networkv1beta1.NodeCap{Adapters: 4, TotalAdapters: 4, IPv4PerAdapter: s.PerENI, IPv6PerAdapter: s.PerENI},
 			ENISpec: &networkv1beta1.ENISpec{
 				VSwitchOptions: []string{"vsw-1"}, SecurityGroupIDs: []string{"sg-1"},
-				EnableIPv4: true, EnableIPv6: s.V6, VSwitchSelectPolicy: networkv1beta1.VSwitchSelectionPolicyOrdered,
+				EnableIPv4: s.v4(), EnableIPv6: s.v6(), VSwitchSelectPolicy: networkv1beta1.VSwitchSelectionPolicyOrdered,
 			},
 			Pool: &networkv1beta1.PoolSpec{MaxPoolSize: s.MaxPool, MinPoolSize: s.MinPool},
 			Flavor: []networkv1beta1.Flavor{{
@@ -435,7 +474,7 @@ func c03lNewWorld(c *vt.Ctx, s c03lScenario) *c03lWorld {
 	// bindings that exist before the history starts (taken over / left by an earlier run)
 	if len(s.Legacy) > 0 {
 		nv6 := 0
-		if s.V6 {
+		if s.v6() {
 			nv6 = len(s.Legacy)
 		}
 		e := w.cloud.Preload(aliyunClient.ENITypeSecondary, aliyunClient.ENITrafficModeStandard, len(s.Legacy)+1, nv6)
@@ -460,13 +499,18 @@ func c03lNewWorld(c *vt.Ctx, s c03lScenario) *c03lWorld {
 			if lg.UID {
 				rec = uid
 			}
-			ips := []string{e.V4[j+1]}
-			if s.V6 {
+			var ips []string
+			if s.v4() {
+				ips = append(ips, e.V4[j+1])
+			}
+			if s.v6() {
 				ips = append(ips, e.V6[j])
 			}
 			if !lg.Takeover {
-				ni.IPv4[e.V4[j+1]].PodID, ni.IPv4[e.V4[j+1]].PodUID = c03lPodID(lg.Slot), rec
-				if s.V6 {
+				if s.v4() {
+					ni.IPv4[e.V4[j+1]].PodID, ni.IPv4[e.V4[j+1]].PodUID = c03lPodID(lg.Slot), rec
+				}
+				if s.v6() {
 					ni.IPv6[e.V6[j]].PodID, ni.IPv6[e.V6[j]].PodUID = c03lPodID(lg.Slot), rec
 				}
 			}
@@ -542,14 +586,17 @@ func (w *c03lWorld) sandboxUp(uid string) *c03lSandbox {
 	return nil
 }
 
+func (s c03lScenario) v4() bool { return !s.V6Only }
+func (s c03lScenario) v6() bool { return s.V6 || s.V6Only }
+
 func (w *c03lWorld) startAgent() {
 	w.crd = eni.C03NewCRDV2(w.cl, terwayTypes.Scheme, c03lNode)
 	mgr := eni.NewManager(0, 0, 0, 0, []eni.NetworkInterface{w.crd}, daemon.EniSelectionPolicyMostIPs, nil)
 	w.svc = &networkService{
 		daemonMode: daemon.ModeENIMultiIP,
 		ipamType:   terwayTypes.IPAMTypeCRD,
-		enableIPv4: true,
-		enableIPv6: w.s.V6,
+		enableIPv4: w.s.v4(),
+		enableIPv6: w.s.v6(),
 		k8s:        w.k,
 		resourceDB: w.db,
 		eniMgr:     mgr,
@@ -714,6 +761,7 @@ func (w *c03lWorld) settle(step string, before *networkv1beta1.NodeRuntime) {
 						step, u, e.PodID, b.cid, b.step)
 				}
 				w.reportStep[u] = w.step
+				w.everReported[u] = true
 				if w.delIssued[u] {
 					w.c.Label("deleted-by:del")
 				} else {
@@ -821,6 +869,7 @@ func (w *c03lWorld) opAdd(op c03lOp) {
 		w.c.Label("re-add-after-del(same uid)")
 	}
 	box.ips, box.ok, box.up = ips, true, true
+	delete(w.everReported, sl.uid)
 	if op.A == 1 && len(ips) > 0 {
 		pod := &corev1.Pod{}
 		w.must(w.cl.Get(w.ctx, client.ObjectKey{Namespace: "ns", Name: c03lPodName(op.P)}, pod), "get pod")
@@ -966,6 +1015,13 @@ func (w *c03lWorld) opReconcile(i int, op c03lOp) {
 	statusFault := op.A&4 != 0
 	w.failNodeStatus, w.conflict = statusFault, op.A&1 != 0
 	w.cloud.SetFaults(op.Faults)
+	switch op.B {
+	case 1:
+		// the next assign request is executed by the cloud but its answer is lost
+		w.cloud.SetOpFault("AssignV4", c03cloud.FaultAfter)
+	case 2:
+		w.cloud.SetOpFault("AssignV6", c03cloud.FaultAfter)
+	}
 	w.cloud.TakeLog()
 
 	prev := w.nodeCR()
@@ -1003,11 +1059,19 @@ func (w *c03lWorld) opReconcile(i int, op c03lOp) {
 	_, err := w.ctl.Reconcile(w.ctx, c03lNode)
 	w.failNodeStatus = false
 	w.cloud.SetFaults(nil)
+	w.cloud.SetOpFault("AssignV4", c03cloud.FaultNone)
+	w.cloud.SetOpFault("AssignV6", c03cloud.FaultNone)
 	calls := w.cloud.TakeLog()
 	now := w.nodeCR()
 	for _, cl := range calls {
 		if cl.Mutating() {
 			w.c.Trace("    cloud %s", cl)
+		}
+		if cl.Op == "AssignV4(replay)" || cl.Op == "AssignV6(replay)" {
+			w.c.Label("cloud:assign-answer-replayed")
+		}
+		if (cl.Op == "AssignV4" || cl.Op == "AssignV6") && cl.Err == "after" {
+			w.c.Label("cloud:assign-answer-lost")
 		}
 	}
 	w.c.Trace("    reconcile: err=%v", err)
@@ -1062,7 +1126,11 @@ func (w *c03lWorld) opReconcile(i int, op c03lOp) {
 		for id, e := range prev.Status.NetworkInterfaces {
 			for fam, m := range map[string]map[string]*networkv1beta1.IP{"v4": e.IPv4, "v6": e.IPv6} {
 				for k, ip := range m {
-					if ip.PodID == "" || ip.PodUID == "" || c03cloud.NameStillThere(ip.PodID, pods) || !c03cloud.TeardownReported(ip.PodUID, rt) {
+					if ip.PodID == "" || ip.PodUID == "" || c03cloud.NameStillThere(ip.PodID, pods) {
+						continue
+					}
+					inRT := c03cloud.TeardownReported(ip.PodUID, rt)
+					if !inRT && !w.everReported[ip.PodUID] {
 						continue
 					}
 					var cur *networkv1beta1.IP
@@ -1074,6 +1142,14 @@ func (w *c03lWorld) opReconcile(i int, op c03lOp) {
 						}
 					}
 					if cur != nil && cur.PodID == ip.PodID {
+						if !inRT {
+							// the report was there once and is gone again (the agent's
+							// housekeeping dropped it while the record did not carry the
+							// UID yet, ...): whether the address still becomes free is
+							// decided by the closing sequence at the end of the history
+							w.c.Label("liveness:report-dropped-before-reclaim")
+							continue
+						}
 						w.c.Fatalf("step %d (reconcile, no faults): %s %s is still bound to %s/%s although the pod is gone and its teardown is reported (%s)",
 							i, fam, k, ip.PodID, ip.PodUID, c03lShowRT(rt, w.vnow))
 					}
@@ -1184,6 +1260,66 @@ func c03lRun(c *vt.Ctx, s c03lScenario) {
 			w.settle(op.K, before)
 		}
 	}
+	w.closing(len(s.Ops))
+}
+
+// closing checks the liveness clause "once the pod is gone and teardown is reported,
+// the address does become free again" as bounded convergence. If the history ends with
+// an address still bound to a pod whose object is gone and whose teardown the agent has
+// reported (the report is in NodeRuntime, or was there and the pod got no sandbox
+// since), two fault-free rounds of the periodic jobs of both sides follow (reporter
+// tick, 5-minute housekeeping, agent GC with a truthful API re-check, reporter tick,
+// reconcile); after them such an address must be free. The safety oracles stay armed
+// during these steps.
+func (w *c03lWorld) closing(n int) {
+	stuck := func() []string {
+		cr := w.nodeCR()
+		pods := w.podTable()
+		rt := w.runtimeObj()
+		var out []string
+		for id, e := range cr.Status.NetworkInterfaces {
+			for _, m := range []map[string]*networkv1beta1.IP{e.IPv4, e.IPv6} {
+				for k, ip := range m {
+					if ip.PodID == "" || ip.PodUID == "" || c03cloud.NameStillThere(ip.PodID, pods) {
+						continue
+					}
+					if c03cloud.TeardownReported(ip.PodUID, rt) || w.everReported[ip.PodUID] {
+						out = append(out, fmt.Sprintf("%s %s=%s/%s", id, k, ip.PodID, ip.PodUID))
+					}
+				}
+			}
+		}
+		sort.Strings(out)
+		return out
+	}
+	if len(stuck()) == 0 {
+		return
+	}
+	w.c.Label("closing:run")
+	step := n
+	agent := func(kind string, f func()) {
+		w.c.Trace("%d: (closing) %s", step, kind)
+		w.step = step
+		before := w.runtimeObj()
+		f()
+		w.settle(kind, before)
+		step++
+	}
+	for round := 0; round < 2; round++ {
+		agent("flush", func() { w.opFlush(c03lOp{K: "flush"}) })
+		agent("syncdel", func() { w.opSyncDel(c03lOp{K: "syncdel"}) })
+		agent("gc", func() { w.opGC(c03lOp{K: "gc"}) })
+		agent("flush", func() { w.opFlush(c03lOp{K: "flush"}) })
+		w.c.Trace("%d: (closing) reconcile", step)
+		w.step = step
+		w.opReconcile(step, c03lOp{K: "reconcile"})
+		step++
+	}
+	if left := stuck(); len(left) > 0 {
+		w.c.Fatalf("liveness: after the history and two fault-free rounds of flush / housekeeping / agent GC / flush / reconcile these addresses are still bound although their pod is gone and the agent had reported its teardown: %v; runtime: %s",
+			left, c03lShowRT(w.runtimeObj(), w.vnow))
+	}
+	w.c.Label("closing:all-freed")
 }
 
 func TestVerifC03ClosedLoop(t *testing.T) { vt.Run(t, c03lGen, c03lRun) }
